@@ -493,6 +493,23 @@ def table_exprs(rng, thorough=False):
     return out
 
 
+def wrap_exprs(rng):
+    """`true && r` / `false || r` must stay a conjunction/disjunction (r may turn out not to be a
+       boolean): put them where a non-boolean would NOT be a type error (==, set/record literals)"""
+    ut, ot = uterms(), others()
+    allu = [t for ts in ut.values() for t in ts]
+    out = []
+    for h in allu:
+        for o in (ot["true"], ot["known_b"]):
+            a = ("and", o, h)
+            out += [("binop", "eq", a, L(7)), ("binop", "eq", a, B(True)), ("binop", "contains", ("set", [a]), B(True)),
+                    ("binop", "eq", ("getattr", ("record", [("k", a)]), "k"), h)]
+        for o in (ot["false"], ("unop", "not", ot["known_b"])):
+            a = ("or", o, h)
+            out += [("binop", "eq", a, L(7)), ("binop", "eq", a, B(False)), ("binop", "contains", ("set", [a]), L(3))]
+    return out
+
+
 def ext_exprs(rng):
     """extension calls over unknown-dependent arguments (outside the model fragment; oracle only)"""
     ut, ot = uterms(), others()
